@@ -8,7 +8,6 @@ TRANSLATORS = []
 LEAN_MODULES = ["IsoVerif.Props.C01"]
 THEOREMS = [
     "IsoVerif.Props.C01.C01_witness_after_panic",
-    "IsoVerif.Props.C01.C01_witness_stale_dep_panic",
     "IsoVerif.Props.C01.C01_statement_false",
     "IsoVerif.Props.C01.C01_stage1_partial",
     "IsoVerif.Props.C01.C01_stage2_single_epoch_partial",
@@ -22,10 +21,10 @@ TECHNIQUE = ("Lean 4 theorems over an executable model of pico (fuel-indexed exe
 LEVEL_TEXT = ""
 LEVEL_NOTE = ""
 PARTIAL = [
-    "C01_statement (all programs, all histories) is false of today's code: a caught panic leaves stale verified nodes (C01_witness_after_panic) and F22 can make a call panic that evaluates fine from scratch (C01_witness_stale_dep_panic); both are open known findings. F1 and F2 were repaired (/repo 79c6822); the model follows the repaired code and their histories are now covered by C01_stage1_partial",
+    "C01_statement (all programs, all histories) is false of today's code only through CAUGHT PANICS: a call that panics leaves stale verified nodes behind (C01_witness_after_panic, open known finding). F1, F2 (/repo 79c6822) and F22 with its consequences — spurious panic, re-entrant stale read — (/repo 340414a) were repaired; the model follows the repaired code",
     "C01_stage1_partial carries nesting depth 0 only (Flat: no body calls a memoised function) and histories none of whose calls panics when evaluated from scratch (CleanCalls); within that class every operation is covered — absent singletons, tracked fields, gc, retain",
     "C01_stage2_single_epoch_partial carries ARBITRARY programs (nested calls, diamonds, ref functions) but only histories in which every source operation precedes every call (plus CleanCalls): execution = evaluation, in-epoch reuse, re-creation after gc",
-    "nested calls ACROSS source changes (verification of derived dependencies, backdating, time_updated) are not carried by a theorem: there C01 rests on the correspondence + oracle; CleanCalls alone is not sufficient for that class (C01_witness_stale_dep_panic), the hypothesis would have to cover every stored node",
+    "nested calls ACROSS source changes (verification of derived dependencies, backdating, time_updated) are not carried by a theorem yet: there C01 rests on the correspondence + oracle",
     "intern_ref appears only as ref functions (kind 3) whose value is the callee's value; intern_value and MemoRef parameters are not in the model",
 ]
 ASSUMPTIONS = [
@@ -171,7 +170,7 @@ def check_distribution(dist, cases):
 
 
 LEVEL_TEXT = ("Kernel-checked: witness theorems showing that the full statement C01_statement (all programs, all histories) is false of today's "
-              "code on two concrete histories (a caught panic; a spurious panic caused by F22), "
+              "code on one concrete history (a caught panic leaves stale verified nodes), "
               "each replayed on the real crate on every run, and the _partial theorems listed in THEOREMS. The model agrees with the real crate "
               "op by op (values, panic classes, run counters) on every generated history.")
 LEVEL_NOTE = ("Trusted: Lean kernel; the hand-written model M-PICO (tied by correspondence only: >= 2 000 generated histories per quick run, "
